@@ -38,7 +38,7 @@ LEVEL = "model_checking"
 def run(ctx):
     q = ctx.quick
     c28.model_stage(ctx, "yaml")
-    n, sample_dir, sig_of = c28.trace_stage(ctx, "yaml", "c29", 90 if q else 450)
+    n, sample_dir, sig_of = c28.trace_stage(ctx, "yaml", "c29", 150 if q else 1000)
     ncli = 0
     if not ctx.violations:
         ncli = c28.cli_stage(ctx, "yaml", sample_dir, sig_of)
